@@ -97,6 +97,14 @@ class DilInterp(Interp):
                     self.timer_attr = n.targets[0].attr
         if self.timer_attr is None:
             raise AnchorMissing("Manager no longer keeps its ping timer (a callLater() result) in an attribute")
+        # the attribute that holds the ping interval: the delay handed to that callLater()
+        self.interval_attr = None
+        for fn in list(M.methods.values()) + list(M.outputs.values()):
+            for n in ast.walk(fn):
+                if isinstance(n, ast.Call) and isinstance(n.func, ast.Attribute) and n.func.attr == "callLater" and n.args and _self_attr(n.args[0]):
+                    self.interval_attr = n.args[0].attr
+        self.rtt_names = set()
+        self.rtt_assumption_used = False
         # Connector functions that disconnect every pending connection
         self.pend_attr = "_pending_connections"
         self.pend_disc = set()
@@ -136,6 +144,32 @@ class DilInterp(Interp):
             return METH(ctx.cls.name, a)
         if isinstance(e, ast.Call) and isinstance(e.func, ast.Name) and e.func.id == "dict_to_bytes" and len(e.args) == 1:
             return self.ev(e.args[0], st, ctx)
+        if isinstance(e, ast.Compare) and len(e.ops) == 1 and self.rtt_names and self.interval_attr:
+            # inside the pong callback: its argument is a round-trip time of at most one ping interval (C16: "a peer that answers
+            # every ping within one interval"); comparisons with k * interval are decided on that basis
+            def mult(x):
+                if _self_attr(x) == self.interval_attr:
+                    return 1.0
+                if isinstance(x, ast.BinOp) and isinstance(x.op, ast.Mult):
+                    for a, b in ((x.left, x.right), (x.right, x.left)):
+                        if _self_attr(a) == self.interval_attr and isinstance(b, ast.Constant) and isinstance(b.value, (int, float)) \
+                                and not isinstance(b.value, bool):
+                            return float(b.value)
+                return None
+            lft, rgt, op0 = e.left, e.comparators[0], type(e.ops[0])
+            flip = {ast.Lt: ast.Gt, ast.Gt: ast.Lt, ast.LtE: ast.GtE, ast.GtE: ast.LtE}
+            if isinstance(rgt, ast.Name) and rgt.id in self.rtt_names and op0 in flip:
+                lft, rgt, op0 = rgt, lft, flip[op0]
+            if isinstance(lft, ast.Name) and lft.id in self.rtt_names and op0 in flip and ctx.locs.get(lft.id) == 'U':
+                k = mult(rgt)
+                if k is not None and k >= 1:
+                    self.rtt_assumption_used = True
+                    if op0 is ast.LtE:
+                        return 'T'
+                    if op0 is ast.Gt:
+                        return 'F'
+                    if k > 1:
+                        return 'T' if op0 is ast.Lt else 'F'
         if isinstance(e, ast.Compare) and len(e.ops) == 1:
             l = self.ev(e.left, st, ctx)
             r = self.ev(e.comparators[0], st, ctx)
@@ -632,8 +666,15 @@ class DilExplorer:
                     s[('e', 'missed')] = ZERO
                     cb = s.get(('e', 'pong_cb'))
                     if isinstance(cb, C) and cb.v in I.continuations:
-                        # the Manager's own on_pong callback, with an unknown round-trip time
-                        return [self.settle(j, x, s2) for s2 in self.tops(I.run_continuation(cb.v, s))]
+                        # the Manager's own on_pong callback; its argument is a round-trip time of at most one interval
+                        what = I.continuations[cb.v][1]
+                        fn_ = what if not isinstance(what, str) else (I.continuations[cb.v][0].methods.get(what))
+                        args_ = [a.arg for a in fn_.args.args] if fn_ is not None else []
+                        I.rtt_names = set(a for a in args_ if a != "self")
+                        try:
+                            return [self.settle(j, x, s2) for s2 in self.tops(I.run_continuation(cb.v, s))]
+                        finally:
+                            I.rtt_names = set()
                     return [self.settle(j, x, s2) for s2 in self.tops(I.fire(T, "traffic_seen", s, {}))]
                 evs.append((x + ".pong", pong))
         # links
@@ -746,6 +787,7 @@ class DilExplorer:
         r.env = self.env
         r.truncated = self.truncated
         r.obl = dict(self.obl)
+        r.rtt_assumption_used = I.rtt_assumption_used
         self._liveness(r)
         for v in r.viol.values():
             v.path = self.path(r, v.state_key) + [v.event] if v.state_key is not None else []
@@ -815,6 +857,7 @@ class DSummary:
         self.events_used = dict(r.events_used)
         self.truncated = r.truncated
         self.obl = r.obl
+        self.rtt_assumption_used = r.rtt_assumption_used
 
 
 def explore(tree, envname="two-party", prog=None):
